@@ -604,3 +604,58 @@ func TestCloseWhileStarting(t *testing.T) {
 		}
 	})
 }
+
+// ---------- Close before Run ----------
+
+// "returns nil only when no handler invocation is in progress and none will start afterwards": also for a router that is closed
+// before it was run and run afterwards. A Close that returns an error promises nothing; one that returns nil does.
+func TestCloseBeforeRun(t *testing.T) {
+	rapid.Check(t, func(t *rapid.T) {
+		n := rapid.IntRange(1, 3).Draw(t, "handlers")
+		backlog := rapid.IntRange(1, 3).Draw(t, "messagesWaitingPerSubscriber")
+		router, err := message.NewRouter(message.RouterConfig{CloseTimeout: 30 * time.Millisecond}, watermill.NopLogger{})
+		if err != nil {
+			t.Fatalf("NewRouter: %v", err)
+		}
+		var started atomic.Int64
+		subs := make([]*lib.ScriptSub, n)
+		for i := 0; i < n; i++ {
+			subs[i] = lib.NewScriptSub("")
+			subs[i].Buffer = backlog
+			router.AddNoPublisherHandler(fmt.Sprintf("h%d", i), "t", subs[i], func(*message.Message) error { started.Add(1); return nil })
+		}
+		closeRet := make(chan error, 1)
+		go func() { closeRet <- router.Close() }()
+		var closeErr error
+		select {
+		case closeErr = <-closeRet:
+		case <-time.After(lib.Live):
+			t.Fatalf("violation: Close() of a router that was never run did not return within %v", lib.Live)
+		}
+		runRet := make(chan error, 1)
+		ctx, cancel := context.WithCancel(context.Background())
+		defer cancel()
+		go func() { runRet <- router.Run(ctx) }()
+		// a subscriber with a backlog: messages are there as soon as somebody subscribes
+		deadline := time.Now().Add(20 * time.Millisecond)
+		for time.Now().Before(deadline) {
+			for _, s := range subs {
+				for _, sub := range s.Subs() {
+					sub.Emit(message.NewMessage("backlog", nil), "backlog", 0, time.Millisecond)
+				}
+			}
+			time.Sleep(500 * time.Microsecond)
+		}
+		cancel()
+		select {
+		case <-runRet:
+		case <-time.After(lib.Live):
+			t.Fatalf("violation: Run() after Close() did not return within %v after its context was cancelled", lib.Live)
+		}
+		if closeErr == nil && started.Load() > 0 {
+			t.Fatalf("violation: Close() returned nil, but %d handler invocations started after it had returned (Run was called after Close)", started.Load())
+		}
+		lib.Case(fmt.Sprintf("close-before-run|%d|%d|closeErr=%v", n, backlog, closeErr != nil), true, "point:before-run", fmt.Sprintf("close-returned-error=%v", closeErr != nil))
+		lib.Sample(map[string]any{"test": "CloseBeforeRun", "handlers": n, "close_returned_error": closeErr != nil, "invocations_after_close": started.Load()})
+	})
+}
